@@ -53,6 +53,14 @@ def build_fa(case, cls="enfa", scheme="int", symvals=None, via="add"):
     starts = [nm[i] for i in range(n) if st >> i & 1]
     finals = [nm[i] for i in range(n) if fi >> i & 1]
     tr = [(nm[p], "epsilon" if s == 0 else sv[s], nm[q]) for p, s, q in trans]
+    if via == "ctor_tf_only":
+        # the transition function, the start and the final states only: states and symbols are whatever they mention
+        tf = m.TransitionFunction() if cls == "dfa" else m.NondeterministicTransitionFunction()
+        for p, s, q in tr:
+            tf.add_transition(m.State(p), m.Epsilon() if s == "epsilon" else m.Symbol(s), m.State(q))
+        if cls == "dfa":
+            return klass(transition_function=tf, start_state=starts[0] if starts else None, final_states=set(finals))
+        return klass(transition_function=tf, start_state=set(starts), final_states=set(finals))
     if via == "ctor_tf":
         # documented constructor with a ready-made transition function (epsilon transitions included)
         tf = m.TransitionFunction() if cls == "dfa" else m.NondeterministicTransitionFunction()
@@ -63,6 +71,13 @@ def build_fa(case, cls="enfa", scheme="int", symvals=None, via="add"):
                          start_state=starts[0] if starts else None, final_states=set(finals))
         return klass(states=set(nm), input_symbols=set(sv.values()), transition_function=tf,
                      start_state=set(starts), final_states=set(finals))
+    if via == "ctor_eps":
+        # the declared alphabet mentions the epsilon spelling (constructor argument and add_symbol)
+        a = klass(states=set(nm), input_symbols=set(sv.values()) | {"epsilon"}, start_state=set(starts),
+                  final_states=set(finals))
+        a.add_symbol("epsilon")
+        a.add_transitions(tr)
+        return a
     if via == "ctor":
         if cls == "dfa":
             a = klass(states=set(nm), input_symbols=set(sv.values()),
